@@ -211,6 +211,9 @@ impl Client {
     }
 }
 
+/// Source location of the last panic (set by the panic hook).
+pub static LAST_PANIC_LOC: std::sync::Mutex<String> = std::sync::Mutex::new(String::new());
+
 /// Panics of the code under test are data.
 pub fn guard<F: FnOnce()>(f: F) -> Result<(), String> {
     match catch_unwind(AssertUnwindSafe(f)) {
